@@ -723,7 +723,7 @@ impl<'a> JsGen<'a> {
             self.line("const dep = require('./dep.js');");
         }
         self.line("function fn0(x) { return x; }");
-        self.line("function tag(s, ...v) { return s.raw.join('') + v.length; }");
+        self.line("function tag(s, ...v) { return s.raw.join(''); }");
         self.line("class Base { constructor() { this.v = 'base'; } }");
         let d = 2;
         for i in 0..self.o.items.max(1) {
